@@ -60,7 +60,9 @@ func runC04(c *core.Ctx) error {
 		}
 		c.Ev.Coverage.Schemas += len(schemas)
 		noteBroken(c, out)
-		reportInner(c, spec, out, "")
+		if err := reportInner(c, spec, out, ""); err != nil {
+			return err
+		}
 	}
 	return nil
 }
